@@ -13,7 +13,7 @@ Quantified over: {p['quantifier']['text']}
 Code most relevant: {', '.join(p['anchors']['files'])}
 
 TASK: produce TWO independent changes to the library source (each a separate small patch, 1-15 changed lines) such that, with the change applied:
-  (a) the library still imports and the existing tests still pass exactly as before. Note: the pinned suite `cd /tmp/mut_{pid} && /venv/bin/python -m pytest -q -p no:cacheprovider tests/...` imports the *installed* site-packages hio, so additionally run the relevant tree-directed tests with `cd /tmp/mut_{pid} && PYTHONPATH=/tmp/mut_{pid}/src /venv/bin/python -m pytest -q -p no:cacheprovider <relevant test files>` before and after your change and make sure the set of failing tests is unchanged (a few tests fail already on the unchanged tree, e.g. tests/base/test_doist.py::test_doist_dos, tests/base/test_asyncio.py::test_asyncio_await_method, tests/base/test_filing.py::test_filing; hier/ and memo tests may have their own pre-existing failures - compare before/after);
+  (a) the library still imports and the existing tests still pass exactly as before. Note: the pinned suite `cd /tmp/mut_{pid} && /venv/bin/python -m pytest -q -p no:cacheprovider tests/...` imports the *installed* site-packages hio, so additionally run the relevant tree-directed tests with `cd /tmp/mut_{pid} && PYTHONPATH=/tmp/mut_{pid}/src /venv/bin/python -m pytest -q -p no:cacheprovider <relevant test files>` before and after your change and make sure the set of failing tests is unchanged (IMPORTANT: other people run the same port-using tests concurrently on this machine; to avoid port clashes run every pytest command inside a private network namespace: `unshare -n sh -c 'ip link set lo up; cd /tmp/mut_{pid} && PYTHONPATH=/tmp/mut_{pid}/src /venv/bin/python -m pytest -q -p no:cacheprovider <files>'`; run only the test files relevant to the code you touch, not the whole suite) (a few tests fail already on the unchanged tree, e.g. tests/base/test_doist.py::test_doist_dos, tests/base/test_asyncio.py::test_asyncio_await_method, tests/base/test_filing.py::test_filing; hier/ and memo tests may have their own pre-existing failures - compare before/after);
   (b) the property above is violated, but only under something specific: a particular interleaving or step order, a fault at a particular point, a multi-step sequence of operations, an unusual-but-legal input, a boundary value, or two cooperating sites that each look fine alone. Do NOT produce changes that ordinary use would expose at once (e.g. breaking every call). Prefer changes in cursor/offset/ordering/state-reset logic, off-by-one at a boundary, a dropped or swapped step on a rare path, a stale cached value, a condition that is wrong only for one combination of flags.
   (c) the two changes should break the property in DIFFERENT ways / at different code sites.
 
